@@ -123,13 +123,48 @@ def expand(x):
     return vmap(lambda e: sp.expand(e) if isinstance(e, sp.Basic) else e, x)
 
 
+_PRIMES = [2, 3, 5, 7, 11, 13, 17, 19, 23, 29, 31, 37, 41, 43, 47, 53, 59, 61, 67, 71, 73, 79, 83, 89, 97, 101, 103, 107, 109, 113]
+
+
+def numeric_nonzero(e, trials=2):
+    """Refutation only: substitute exact rationals for the free symbols (respecting positivity assumptions) and evaluate to 40 digits.
+    True means the expression is certainly not identically zero (it is non-zero at a regular point); False means nothing."""
+    try:
+        syms = sorted(e.free_symbols, key=str)
+        if len(syms) > 80:
+            return False
+        for t in range(trials):
+            sub = {}
+            for i, sy in enumerate(syms):
+                pr, q = _PRIMES[(i + 7 * t) % len(_PRIMES)], _PRIMES[(2 * i + 3 + t) % len(_PRIMES)]
+                v = sp.Rational(pr, q + 1)
+                if not (sy.is_positive or sy.is_nonnegative) and (i + t) % 3 == 0 and not sy.is_integer:
+                    v = -v
+                if sy.is_integer:
+                    v = sp.Integer(pr if (sy.is_positive or (i + t) % 2) else -pr)
+                sub[sy] = v
+            val = e.subs(sub)
+            if val.free_symbols:
+                return False
+            val = sp.N(val, 40)
+            if val in (sp.nan, sp.zoo, sp.oo, -sp.oo) or not val.is_number:
+                continue
+            if abs(val) > sp.Float('1e-25'):
+                return True
+        return False
+    except Exception:
+        return False
+
+
 def is_zero(e, assume_pos=(), deep=True):
-    """Exact zero test through CAS normal forms."""
+    """Exact zero test through CAS normal forms (a numeric evaluation at rational points is used only to refute quickly)."""
     if is_arr(e):
         return all(is_zero(v, deep=deep) for v in e.flat)
     e = sp.sympify(e)
     if e == 0:
         return True
+    if isinstance(e, sp.Expr) and e.free_symbols and numeric_nonzero(e):
+        return False
     x = sp.expand(e)
     if x == 0:
         return True
@@ -196,8 +231,9 @@ class _ClassRef:
 
 
 class Closure:
-    def __init__(self, fn, ev, selfobj=None):
+    def __init__(self, fn, ev, selfobj=None, outer=None, env=None):
         self.fn, self.ev, self.selfobj = fn, ev, selfobj
+        self.outer, self.env = outer, env      # defining function node and the environment it was defined in (free variables)
 
 
 class OpaqueFn:
@@ -967,7 +1003,10 @@ class SymEval:
             return obj
         if isinstance(f, Closure):
             a2 = ([f.selfobj] if f.selfobj is not None else []) + args
-            return self.call_fn(f.fn, a2, kw, p)
+            outer_env = None
+            if f.outer is not None:
+                outer_env = p.env if (self.fn_stack and self.fn_stack[-1] is f.outer) else f.env
+            return self.call_fn(f.fn, a2, kw, p, outer_env=outer_env)
         if isinstance(f, OpaqueFn):
             if not self.opaque_calls:
                 raise Opaque('call outside vocabulary: ' + norm(n))
@@ -1016,14 +1055,14 @@ class SymEval:
             env[a.vararg.arg] = tuple(args[len(names):])
         return env
 
-    def call_fn(self, fn, args, kw, p, want_none=False):
+    def call_fn(self, fn, args, kw, p, want_none=False, outer_env=None):
         """inline a repository function: single-path result required at call sites"""
         self.depth += 1
         if self.depth > self.max_depth:
             self.depth -= 1
             raise Opaque('inlining depth exceeded at %s' % fn.name)
         try:
-            paths = self.run_fn(fn, args, dict(kw), conds=p.conds)
+            paths = self.run_fn(fn, args, dict(kw), conds=p.conds, outer_env=outer_env)
             live = [q for q in paths if q.done != 'raise']
             if not live and paths:
                 raise _FnRaise(paths[0].raised)
@@ -1034,9 +1073,13 @@ class SymEval:
         finally:
             self.depth -= 1
 
-    def run_fn(self, fn, args=(), kw=None, env=None, conds=None):
+    def run_fn(self, fn, args=(), kw=None, env=None, conds=None, outer_env=None):
         """all syntactic paths through fn: list of Path (done in {'return','raise',None})"""
         e = self.bind(fn, list(args), dict(kw or {})) if env is None else dict(env)
+        if outer_env:
+            e2 = dict(outer_env)
+            e2.update(e)
+            e = e2
         start = Path(e, conds)
         self.fn_stack.append(fn)
         try:
@@ -1337,7 +1380,7 @@ class SymEval:
         return self.block(s.body, [p])
 
     def s_FunctionDef(self, s, p):
-        p.env[s.name] = Closure(s, self)
+        p.env[s.name] = Closure(s, self, outer=self.fn_stack[-1] if self.fn_stack else None, env=p.env)
         return [p]
 
     def s_Delete(self, s, p):
